@@ -112,7 +112,7 @@ def from_bnf(Gb):
 
 def grammar_json(G, ka, ph):
     return {'start': 'start', 'ka': bool(ka), 'ph': bool(ph),
-            'rules': [{'name': r['name'], 'expand1': r['expand1'], 'keepall': r['keepall'], 'inline': r['name'].startswith('_'),
+            'rules': [{'name': r['name'], 'expand1': r['expand1'], 'keepall': r['keepall'], 'inline': r.get('inline', r['name'].startswith('_')),
                        'prio': r.get('prio', 0),
                        'alts': [{'alias': a['alias'], 'body': norm(a['body'])} for a in r['alts']]} for r in G['rules']]}
 
@@ -249,3 +249,20 @@ def deriv_cyclic(rules):
                     reach.add((a, d))
                     ch = True
     return any(a == b for a, b in reach)
+
+
+def from_compiled(lark_rules):
+    """lark's compiled BNF rules -> AST grammar for *unshaped* derivation trees: every token kept, nothing inlined,
+    node label = alias or template source or origin (what the forest API documents)"""
+    by = {}
+    order = []
+    for r in lark_rules:
+        name = str(r.origin.name)
+        if name not in by:
+            by[name] = []
+            order.append(name)
+        label = r.alias or (r.options.template_source if r.options and r.options.template_source else None) or name
+        items = [({'k': 'tok', 'name': str(s.name), 'keep': True} if s.is_term else ref(str(s.name))) for s in r.expansion]
+        by[name].append({'alias': str(label) if str(label) != name else '', 'body': seq(items)})
+    rules = [{'name': n, 'expand1': False, 'keepall': False, 'inline': False, 'alts': by[n]} for n in order]
+    return {'rules': rules}
